@@ -50,13 +50,26 @@ func FindPath(q PathQuery) []ssa.Instruction {
 		start = node{q.From.Block(), instrIndex(q.From) + 1}
 	}
 	type qe struct {
-		n    node
-		prev int
+		n     node
+		prev  int
+		from  *ssa.BasicBlock // the predecessor this block was entered from (nil for the start)
+		from2 *ssa.BasicBlock // … and the predecessor `from` was entered from
 	}
-	queue := []qe{{start, -1}}
-	visited := map[*ssa.BasicBlock]bool{}
+	queue := []qe{{start, -1, nil, nil}}
+	// blocks whose branch condition is a phi of the block itself (&&/|| lowering) are visited once per incoming edge: the
+	// phi's value on a path is the value of the edge actually taken
+	type vkey struct{ b, from, from2 *ssa.BasicBlock }
+	phiCond := func(b *ssa.BasicBlock) *ssa.Phi {
+		if ifi, ok := lastInstr(b).(*ssa.If); ok {
+			if ph, ok := ifi.Cond.(*ssa.Phi); ok && ph.Block() == b {
+				return ph
+			}
+		}
+		return nil
+	}
+	visited := map[vkey]bool{}
 	if start.idx == 0 {
-		visited[start.b] = true
+		visited[vkey{start.b, nil, nil}] = true
 	}
 	var hit ssa.Instruction
 	hitIdx := -1
@@ -80,7 +93,20 @@ func FindPath(q PathQuery) []ssa.Instruction {
 		}
 		succs := n.b.Succs
 		if ifi, ok := lastInstr(n.b).(*ssa.If); ok && q.Assume != nil {
-			if known, val := EvalCond(ifi.Cond, q.Assume); known {
+			var res predResolver
+			if n.idx == 0 && queue[qi].from != nil {
+				cur := queue[qi]
+				res = func(b *ssa.BasicBlock) *ssa.BasicBlock {
+					switch b {
+					case n.b:
+						return cur.from
+					case cur.from:
+						return cur.from2
+					}
+					return nil
+				}
+			}
+			if known, val := evalCondOnPath(ifi.Cond, q.Assume, res, 0); known {
 				if val {
 					succs = n.b.Succs[:1]
 				} else {
@@ -105,9 +131,19 @@ func FindPath(q PathQuery) []ssa.Instruction {
 			if q.Edge != nil && !q.Edge(n.b, si) {
 				continue
 			}
-			if !visited[s] {
-				visited[s] = true
-				queue = append(queue, qe{node{s, 0}, qi})
+			k := vkey{s, nil, nil}
+			var f2 *ssa.BasicBlock
+			if phiCond(s) != nil {
+				// keep the history the condition may depend on: the entering edge and the edge before it
+				k.from = n.b
+				if n.idx == 0 {
+					f2 = queue[qi].from
+				}
+				k.from2 = f2
+			}
+			if !visited[k] {
+				visited[k] = true
+				queue = append(queue, qe{node{s, 0}, qi, n.b, f2})
 			}
 		}
 	}
@@ -146,6 +182,31 @@ func lastInstr(b *ssa.BasicBlock) ssa.Instruction {
 // incoming values all evaluate to the same known result.
 func EvalCond(v ssa.Value, a Assumption) (known, val bool) {
 	return evalCond(v, a, 0)
+}
+
+// predResolver tells, for a block on the path being explored, which predecessor it was entered from (nil: unknown).
+type predResolver func(b *ssa.BasicBlock) *ssa.BasicBlock
+
+// evalCondOnPath is EvalCond for a condition met on a concrete path: phis of blocks whose entering edge is known take the
+// value of that edge.
+func evalCondOnPath(v ssa.Value, a Assumption, res predResolver, depth int) (bool, bool) {
+	if depth > 8 {
+		return false, false
+	}
+	if ph, ok := v.(*ssa.Phi); ok && res != nil {
+		if p := res(ph.Block()); p != nil {
+			for i, q := range ph.Block().Preds {
+				if q == p {
+					return evalCondOnPath(ph.Edges[i], a, res, depth+1)
+				}
+			}
+		}
+	}
+	if u, ok := v.(*ssa.UnOp); ok && u.Op == token.NOT {
+		k, val := evalCondOnPath(u.X, a, res, depth+1)
+		return k, !val
+	}
+	return evalCond(v, a, depth)
 }
 
 func evalCond(v ssa.Value, a Assumption, depth int) (bool, bool) {
